@@ -38,8 +38,11 @@ RULE = ("Programs of 4-10 lines from statement templates carrying 6-character ma
         "ERROR 5; neutral statements; multi-step bypass histories: POKE / BLOAD (flag and memory "
         "images saved before the protected program was loaded) / DEF SEG aliases aimed at the "
         "protection flag (address found by diffing a PEEK dump, not by name) and at the program "
-        "area, each followed by disclosure probes; finally NEW / LOAD / CHAIN / RUN of a helper "
-        "and a PEEK sweep, LIST and SAVE ,A over what is left.  Non-trivial: every probe that "
+        "area, each followed by disclosure probes; finally two replacement histories per case: "
+        "{pointer as the final RUN left it, reloaded, reloaded+RUN, reloaded+GOTO n} x {NEW, "
+        "CLEAR:NEW, LOAD/CHAIN/RUN of a shorter ASCII, tokenised or protected program, NEW + typed "
+        "lines} x {LIST, SAVE ,A, tokenised SAVE, SAVE ,P reopened in an ordinary session, BSAVE "
+        "and a PEEK sweep over the old program area}: no marker may come back.  Non-trivial: every probe that "
         "reaches a statement touching program memory (all but the neutral ones); a case is "
         "non-trivial if it holds such a probe; distinct = distinct case (program x state x entry x "
         "probe list).")
@@ -264,6 +267,9 @@ def check_case(case):
         with harness.Sess(sandbox=sb) as s0:
             with open(os.path.join(sb.z, 'PLAIN.TXT'), 'wb') as f:
                 f.write(text.encode('latin-1'))
+            o = s0.execute('10 X=1\n20 END\nSAVE "HB"\nSAVE "HP",P\nNEW')
+            if o.kind != 'ok' or o.errors:
+                raise AssertionError('cannot prepare helper programs: %r' % (o,))
             o = s0.execute('LOAD "PLAIN.TXT"')
             if o.kind != 'ok' or o.errors:
                 raise AssertionError('generated program does not load: %r\n%s' % (o, text))
@@ -414,30 +420,74 @@ def check_case(case):
             if (o.kind, o.output) != ref_out:
                 res.fail('run.differs', 'protected RUN -> %r %r\noriginal -> %r' % (
                     o.kind, o.output, ref_out))
-            # 5. finale: get rid of the program, then look for what it left behind
-            fin = rng.choice(['NEW', 'LOAD "H.BAS"', 'CHAIN "H.BAS"', 'RUN "H.BAS"', 'CLEAR:NEW'])
-            res.label('finale.' + fin.split()[0])
-            s.execute('CLS')
-            blob = b''
-            steps = [fin, 'DEF SEG', 'LIST', 'SAVE "AFTER",A']
-            for a in range(code_start - 8, code_start + code_size + 16, 200):
-                steps.append('PA$="":FOR I=%d TO %d:PA$=PA$+CHR$(PEEK(I)):NEXT' % (a, a + 207))
-            for st_ in steps:
-                o = s.execute(st_)
-                if o.kind == 'escaped':
-                    res.fail('escaped.%s@%s' % (o.exc, o.frame), 'finale %r after %r\n%s' % (
-                        st_, fin, o.tb))
-                    return res
-                blob += o.output + b'\n'.join(s.chars())
-                v = s.get('PA$')
-                if isinstance(v, bytes):
-                    blob += v
-            for name, data in list_files(sb.z).items():
-                if before.get(name) != data:
-                    blob += data
-            if scan(blob, markers):
-                res.fail('disclosed.after-%s' % fin.split()[0].rstrip(':'),
-                         'after %r the old program still shows: %r' % (fin, scan(blob, markers)))
+            # 5. replacement histories: the protected program is formally gone (NEW, LOAD / CHAIN /
+            #    RUN of a shorter program, lines typed over it) - nothing it contained may come
+            #    back through any channel that exposes program memory
+            pfiles = []
+            for hno in range(2):
+                pre = rng.choice(['as-is', 'reload', 'reload-run', 'reload-goto'])
+                repl = rng.choice(['NEW', 'CLEAR:NEW', 'LOAD "H.BAS"', 'LOAD "HB"', 'LOAD "HP"',
+                                   'CHAIN "H.BAS"', 'RUN "H.BAS"', 'RUN "HB"', 'NEW+type'])
+                if hno == 0 and pre != 'as-is' and rng.random() < 0.5:
+                    pre = 'as-is'           # the pointer is wherever the final RUN left it
+                res.label('history.%s.%s' % (pre, repl.split()[0]))
+                prep = []
+                if pre != 'as-is':
+                    prep.append('LOAD "PROT"')
+                if pre == 'reload-run':
+                    prep.append('RUN')
+                if pre == 'reload-goto':
+                    prep.append('GOTO %d' % rng.choice(linenos))
+                prep += ['NEW', '10 X=1', '20 END'] if repl == 'NEW+type' else [repl]
+                prep.append('CLS')
+                tag = 'R%d' % hno
+                observe = ['DEF SEG', 'LIST', 'SAVE "%sA",A' % tag, 'SAVE "%sB"' % tag,
+                           'SAVE "%sP",P' % tag,
+                           'BSAVE "%sM",%d,%d' % (tag, max(0, code_start - 16), code_size + 300)]
+                pfiles.append(tag + 'P.BAS')
+                for a_ in range(code_start - 8, code_start + code_size + 16, 200):
+                    observe.append('PA$="":FOR I=%d TO %d:PA$=PA$+CHR$(PEEK(I)):NEXT' % (a_, a_ + 207))
+                blob = b''
+                for i_, st_ in enumerate(prep + observe):
+                    o = s.execute(st_)
+                    if o.kind == 'escaped':
+                        res.fail('escaped.%s@%s' % (o.exc, o.frame), 'history %s / %s: %r\n%s' % (
+                            pre, repl, st_, o.tb))
+                        return res
+                    if i_ >= len(prep):
+                        blob += o.output + b'\n'.join(s.chars())
+                        v = s.get('PA$')
+                        if isinstance(v, bytes):
+                            blob += v
+                now = list_files(sb.z)
+                for name, data in now.items():
+                    if before.get(name) != data:
+                        blob += data
+                before = now
+                res.nt(True)
+                if scan(blob, markers):
+                    res.fail('disclosed.after-replacement.%s' % repl.split()[0].rstrip(':'),
+                             'history %s, then %r: the old program still shows %r\n%s' % (
+                                 pre, repl, scan(blob, markers), text))
+        # 6. what the replacement sessions saved in protected form, opened in an ordinary session
+        with harness.Sess(sandbox=sb) as s2:
+            for name in pfiles:
+                if not os.path.exists(os.path.join(sb.z, name)):
+                    continue
+                s2.execute('NEW\nLOAD "%s"\nSAVE "X%sA",A\nSAVE "X%sB"' % (
+                    name[:-4], name[:2], name[:2]))
+                s2.execute('CLS')
+                o = s2.execute('LIST')
+                blob = o.output
+                for suffix in ('A', 'B'):
+                    fn = os.path.join(sb.z, 'X%s%s.BAS' % (name[:2], suffix))
+                    if os.path.exists(fn):
+                        with open(fn, 'rb') as f:
+                            blob += f.read()
+                if scan(blob, markers):
+                    res.fail('disclosed.after-replacement.SAVE-P',
+                             '%s saved after the replacement holds %r\n%s' % (
+                                 name, scan(blob, markers), text))
     finally:
         sb.close()
     return res
@@ -485,6 +535,10 @@ KILLS = [
     "machine.py poke_: guard removed -> protection-dropped.BYPASS, disclosed.BYPASS.console/screen",
     "machine.py poke_: guard only while DEF SEG is the data segment -> protection-dropped.BYPASS "
     "(DEF SEG=ds-k:POKE flag+16k,0), not-refused.* in the probes that follow",
+    "program.py erase(): truncate before the end marker is written (wave-4 seed; needs the program "
+    "pointer beyond the start, then NEW / LOAD of a shorter program, then a tokenised or ,P SAVE) "
+    "-> disclosed.after-replacement.NEW/CLEAR:NEW/LOAD/RUN/NEW+type, "
+    "disclosed.after-replacement.SAVE-P",
     "implementation.py chain_: 'protected and merge' test removed -> not-refused.CHAIN-MERGE "
     "(CHAIN MERGE of a file without lines; with lines store_line still refuses), "
     "disclosed.CHAIN-MERGE.console",
